@@ -115,7 +115,7 @@ fn documented() -> Vec<String> {
 }
 
 pub fn run(ctx: &Ctx) -> i32 {
-    let n = ctx.tier.pick(5, 6);
+    let n = ctx.tier.pick(6, 7);
     let mut acc = Acc::new();
     for len in 1..=n {
         let total = (ALPHA.len() as u64).pow(len as u32);
